@@ -1,5 +1,7 @@
 #!/bin/sh
-# re-run, for every stored seeded change, the checks recorded as catching it (scratch worktree, removed afterwards)
+# re-run, for every stored seeded change, the checks recorded as catching it (scratch worktree, removed
+# afterwards); the failing inputs each check reports are collected into corpus/<Cxx>/<change>.json, which
+# every later run of that check replays first
 cd "$(dirname "$0")" || exit 2
 WT=/tmp/seeded_wt_$$
 for d in seeded/*/; do
@@ -9,8 +11,13 @@ for d in seeded/*/; do
   checks=$(python3 -c "import json;print(' '.join(c for c in json.load(open('$d/meta.json'))['caught_by'] if '(' not in c))")
   out=""
   for c in $checks; do
-    r=$(VERIF_EVIDENCE_DIR=/tmp/seeded_evidence SMOOTHMATH_REPO=$WT ./check $c --tier quick 2>&1 | grep -E "^(OK|VIOLATION|INFRA)" | head -1 | awk '{print $1}')
+    line=$(VERIF_EVIDENCE_DIR=/tmp/seeded_evidence VERIF_REPLAY_DIR=/tmp/seeded_replays VERIF_NO_CORPUS=1 SMOOTHMATH_REPO=$WT ./check $c --tier quick 2>&1 | grep -E "^(OK|VIOLATION|INFRA)" | head -1)
+    r=$(echo "$line" | awk '{print $1}')
     out="$out $c:$r"
+    rp=$(echo "$line" | sed -n 's/.*replay=\([^ ]*\).*/\1/p')
+    if [ "$r" = "VIOLATION" ] && [ -n "$rp" ] && ! echo "$line" | grep -q no-failing-input-found; then
+      python3 tools_corpus.py "$c" "$n" "$rp"
+    fi
   done
   echo "$n:$out"
   git -C /repo worktree remove --force $WT
